@@ -5,12 +5,17 @@
 // Oracles after every step: (1) object behind the C handle == twin C++ object driven by the documented C++ calls,
 // (2) LP inside the C object == reference model built from the INPUT arrays, (3) returned values/strings,
 // (4) ASan flavour: every array is a heap block of exactly the length passed.
+// Domain limits (stated in props.d/C20.py): SYNCMODE_MANUAL and the precision-boosting parameters are not drawn; every
+// SoPlex_optimize is first tried in a forked child (C call + C++ call + comparison + destruction): a solve that crashes,
+// throws or hangs there fails in the C++ API as well and is counted as unjudged.optimize_* instead of being issued.
+// Known findings (known_findings.txt keys) are avoided at decode time when --x known=... names them.
 #include "spx.hpp"
 #include "soplex_interface.h"
 #include <climits>
 #include <memory>
 #include <fcntl.h>
 #include <sys/wait.h>
+#include <csignal>
 
 using namespace vf;
 using soplex::Rational;
@@ -479,7 +484,10 @@ static void genIntParam(Rec& r, bool forFile)
    int code;
    do
    {
-      code = R(0, S::INTPARAM_COUNT - 1);
+      // precision boosting (MULTIPRECISION_LIMIT, STORE_BASIS_SIMPLEX_FREQ, the three bools, the factor) is not drawn:
+      // the boosted solver's working precision is process-global (mpfr default precision), so two objects in one
+      // process are not independent and a twin comparison would be unsound
+      code = R(0, S::MULTIPRECISION_LIMIT - 1);
    }
    while(code == S::SYNCMODE && forFile);
    int v;
@@ -513,13 +521,13 @@ static void genIntParam(Rec& r, bool forFile)
 }
 static void genBoolParam(Rec& r)
 {
-   r.add(R(0, SoPlex::BOOLPARAM_COUNT - 1)).add(R(0, 1));
+   r.add(R(0, SoPlex::PRECISION_BOOSTING - 1)).add(R(0, 1));
 }
 static void genRealParam(Rec& r)
 {
    typedef SoPlex S;
    auto& t = S::Settings::realParam;
-   int code = R(0, S::REALPARAM_COUNT - 1);
+   int code = R(0, S::PRECISION_BOOSTING_FACTOR - 1);
    double v;
    switch(code)
    {
@@ -974,7 +982,7 @@ struct Runner
          ev().count(std::string("both_threw.") + fn);
          if(!allowThrow)
          {
-            v.fail(std::string("SoPlex_") + fn + ": a C++ exception escaped from the extern \"C\" function (the C++ call throws too): " + what.substr(0, 60));
+            v.fail(std::string("SoPlex_") + fn + ": a C++ exception escaped from the extern \"C\" function (the C++ call throws too): " + what.substr(0, 24));
             return false;
          }
       }
@@ -1395,7 +1403,7 @@ bool Runner::step(const Rec& r)
                dup2(fd, 1);
                dup2(fd, 2);
             }
-            alarm(120);
+            alarm(10);
             try
             {
                // exactly what the parent would do for this step, then tear both objects down so that the allocator
@@ -1446,7 +1454,7 @@ bool Runner::step(const Rec& r)
          }
          else if(waited && !(WIFEXITED(st) && WEXITSTATUS(st) == 0))
          {
-            ev().count("unjudged.optimize_dies_in_cpp_api_too");
+            ev().count(WIFSIGNALED(st) && WTERMSIG(st) == SIGALRM ? "unjudged.optimize_hangs_in_cpp_api_too" : "unjudged.optimize_dies_in_cpp_api_too");
             if(caseTextForCrash && opts().mode == "gen") writeFile(opts().dir + "/cpp_solver_crash_" + std::to_string(crashNo++ % 5) + ".case", *caseTextForCrash);
             return true;
          }
